@@ -127,6 +127,25 @@ def check_assumptions(pid, proof_out):
     return thms, problems
 
 
+def run_coqchk(pid):
+    """thorough tier: re-check the compiled property file and everything it depends on with the independent checker;
+    returns (summary line, list of problems)"""
+    rc, out = sh('cd %s/coq && timeout 3000 coqchk -o -silent -Q . Dmd Dmd.Props.%s 2>&1' % (V, pid))
+    problems = []
+    m = re.search(r'\* Axioms:\s*(.*?)\n\s*\n', out, re.S)
+    ax = m.group(1).strip() if m else None
+    if rc != 0 or ax is None:
+        problems.append('coqchk did not complete: ' + out[-600:])
+        return 'coqchk failed', problems
+    if ax != '<none>':
+        problems.append('coqchk reports axioms: ' + ax[:600])
+    for key in ('type-in-type', 'unsafe (co)fixpoints', 'positivity is assumed'):
+        mm = re.search(r'%s:\s*(.*?)\n' % re.escape(key), out)
+        if mm and mm.group(1).strip() != '<none>':
+            problems.append('coqchk: %s: %s' % (key, mm.group(1).strip()[:200]))
+    return 'coqchk -o Dmd.Props.%s: axioms %s' % (pid, ax), problems
+
+
 # ----------------------------------------------------------------- running cases
 
 def run_cases(case_lines, tag):
@@ -229,8 +248,12 @@ def main():
         sys.exit(2)
 
     thms, problems = [], []
+    chk_note = ''
     if os.path.exists(os.path.join(V, 'coq/Props/%s.v' % pid)):
         thms, problems = check_assumptions(pid, st['proof_out'] if st['proof_ok'] else '')
+        if tier == 'thorough' and st['proof_ok']:
+            chk_note, p2 = run_coqchk(pid)
+            problems += p2
     proof_broken = None
     if not st['gen_ok']:
         proof_broken = 'translator (tools/gen.py) could not read the source: ' + st['gen_msg']
@@ -312,7 +335,7 @@ def main():
             'obligations': max(1, len(thms)),
             'discharged': len(thms) if (st['proof_ok'] and not problems and thms) else 0,
             'theorems': thms,
-            'checker_cmd': 'cd /verif/coq && make Props/%s.vo   (coqc 8.16.1; Print Assumptions under every theorem)' % pid,
+            'checker_cmd': 'cd /verif/coq && make Props/%s.vo   (coqc 8.16.1; Print Assumptions under every theorem)' % pid + ('; ' + chk_note if chk_note else ''),
             'trusted_base': TRUSTED,
             'evaluations': len(ids),
             'distinct_nontrivial': len(nontriv),
